@@ -138,6 +138,10 @@ func reachesPhi(ph *ssa.Phi, v ssa.Value, li *loopInfo, seen map[ssa.Value]bool)
 }
 
 func ruleNoCarriedState(scope func(p *Prog, l *Ledger, rule string) []*ssa.Function, min int) func(p *Prog, l *Ledger, tier string) {
+	return ruleNoCarriedStateMsg(scope, min, "what is written for an element then depends on the elements before it")
+}
+
+func ruleNoCarriedStateMsg(scope func(p *Prog, l *Ledger, rule string) []*ssa.Function, min int, consequence string) func(p *Prog, l *Ledger, tier string) {
 	return func(p *Prog, l *Ledger, tier string) {
 		const rule = "E13.I6-per-cue-independence"
 		n := 0
@@ -184,7 +188,7 @@ func ruleNoCarriedState(scope func(p *Prog, l *Ledger, rule string) []*ssa.Funct
 							break
 						}
 					}
-					l.Fail(rule, name, key, pos, fmt.Sprintf("%s: variable %q carries a value computed while writing one element (%s) into the next iteration of the loop at %s: what is written for an element then depends on the elements before it", name, desc, os[0], blockPos(p, li.header)))
+					l.Fail(rule, name, key, pos, fmt.Sprintf("%s: variable %q carries a value computed for one element (%s) into the next iteration of the loop at %s: %s", name, desc, os[0], blockPos(p, li.header), consequence))
 				}
 			}
 		}
